@@ -80,7 +80,7 @@ CHECKS = {
              "off language writes nothing; every file lies in its designated directory and every expected file is "
              "there; --cfiles/--ffiles equal the C/C++ and Fortran files present; a python/lua toggle leaves C/Fortran "
              "bytes unchanged; a switched-off declaration is absent from and a switched-on one present in that "
-             "language's comment-free tokens.",
+             "language's comment-free tokens. A class or function inside a block that switches a language off must be absent from that language's output; a C-only run writes and lists no Fortran source.",
         note="File kinds are learnt from reference runs of the same tree (so a whole kind consistently written to another "
              "directory is only noticed for the explicit rules: off-language directories empty, only setup.py in "
              "--outdir). With wrap_fortran off but wrap_c on, the bind(C) interface of the C wrapper may remain in the "
@@ -196,7 +196,7 @@ CHECKS = {
              "documented module API; the combined call/receive/observe stream must equal the stream a reference model "
              "predicts from the description alone (trimmed NUL-terminated character input, logical<->bool, implied sizes, "
              "blank padding/truncation or exact allocation of results, array contents), for language c and c++, F_CFI off "
-             "and on, debug off and on. The upstream executed Fortran tests are rebuilt against fresh wrappers as well.",
+             "and on, debug off and on. The upstream executed Fortran tests are rebuilt against fresh wrappers as well. Function templates (every instantiation), enum arguments by their generated names and struct arguments / results (by value, by pointer in / out / inout, result by value and by pointer) are part of the executed model.",
         note="Rows executed are listed in the evidence labels. gfortran/gcc/g++ 12 on x86-64. Unsigned values are kept in "
              "the signed range for Fortran. A failing call is reduced structurally (function, call, parameters).",
     ),
@@ -208,7 +208,7 @@ CHECKS = {
         design_ref="DESIGN.md section 4, C02",
         text="As C01 with a C99 driver that includes only the generated headers and calls the documented C names: the C++ "
              "callee must log exactly the values the C caller passed (references and std::string rebuilt from their C "
-             "forms, declaration order) and the caller must observe the scripted results and output arguments.",
+             "forms, declaration order) and the caller must observe the scripted results and output arguments. Function templates and struct arguments / results are part of the executed model.",
         note="language c++ only (a C library needs no C API). A std::string returned by value has no plain C wrapper "
              "(documented) and is not driven from C.",
     ),
@@ -240,7 +240,7 @@ CHECKS = {
              "unknown-keyword / wrongly typed arguments; the stream must show the documented values delivered, the result "
              "followed by every out/inout argument (single object or tuple), TypeError/ValueError without any library "
              "call for bad calls, and methods acting on the right C++ object. Probes cover default arguments with "
-             "keywords and the recorded findings.",
+             "keywords and the recorded findings. Struct arguments / results as extension types (PY_struct_arg: class) run under a pre-loaded AddressSanitizer; an overload set that C++ resolves by exact match (int vs double) must resolve the same way.",
         note="Language c and c++, PY_array_arg=list; numpy variants are not executed. Five recorded known findings are "
              "excluded by construction from the main search and probed on every run.",
     ),
@@ -292,7 +292,7 @@ CHECKS = {
              "pointer of equal layout, CFI descriptor, function pointer) and an interoperable result. bind(C) derived types "
              "are compared with their C structs via sizeof/offsetof vs c_sizeof/c_loc, and the SH_TYPE_* tables are "
              "evaluated by gcc and gfortran and compared name by name; enumerators of generated C headers and the parameters of "
-             "the generated modules are compared the same way.",
+             "the generated modules are compared the same way. Every generated library is also analysed as the second library wrapped by one process.",
         note="Trusted base: clang 14 AST, gcc/gfortran 12 on x86-64, the interoperability rule table in vf/iface.py; "
              "gfortran -fc-prototypes cross-checks the reader's arity (disagreement = harness error). Interfaces inside "
              "preprocessor conditionals are only checked when the C side is compiled too.",
